@@ -107,27 +107,54 @@ Proof.
   now rewrite (check_completed_iff_documented fs cfg NB).
 Qed.
 
-(* COMPLETION: a user section {"input": {"left": L, "right": R}} (sides in either order, any
-   keys, any non-dictionary values) is completed into a section holding, for every key, the
-   user's value ("NaN" / "inf" / "-inf" converted) and otherwise the documented default
-   (nodata -9999, mask/classif/segm none, right disp none; nothing for img and the left disp) *)
+(* COMPLETION, EVERY USER VALUE IS KEPT: a user section {"input": {"left": L, "right": R}} (sides
+   in either order, any keys, ANY values -- dictionaries included; [py_keys]: every dictionary has
+   each key once, as a Python dict has) is completed into a section holding, for every key, the
+   user's value ([kept]: "NaN" / "inf" / "-inf" read as numbers) and otherwise the documented
+   default (nodata -9999, mask/classif/segm none, right disp none; nothing for img and the left
+   disp).  In particular update_conf raises on no such section and never puts a default in the
+   place of a value the user wrote. *)
 Theorem C17_input_completion : forall L R (swap : bool),
-  NoDup (keys L) -> NoDup (keys R) -> no_dict_value L -> no_dict_value R ->
+  py_keys (JDict L) -> py_keys (JDict R) ->
   let sides := if swap then [("right", JDict R); ("left", JDict L)] else [("left", JDict L); ("right", JDict R)] in
   let user := JDict [("input", JDict sides)] in
   exists cfg, upd (JDict default_short_configuration_input) user = Ok cfg /\
     forall side key, side = "left" \/ side = "right" ->
       field cfg side key = match field user side key with
-                           | Some v => Some (conv_special v)
+                           | Some v => Some (kept v)
                            | None => documented_default side key
                            end.
 Proof. exact input_completion_lr. Qed.
 
-(* the statement of C17_input_completion without the guard [no_dict_value], kept visible *)
-Definition C17_user_values_kept_full : Prop :=
-  forall fs user cfg side key v,
-    pandora_check_input_section fs user = Ok cfg -> side = "left" \/ side = "right" ->
-    field user side key = Some v -> field cfg side key = Some (conv_special v).
+(* EVERY USER VALUE IS KEPT, any outline (the statement refuted on the tree as found, see
+   C17_regression_empty_dict below): for EVERY user configuration (a Python value: each dictionary
+   has each key once) -- extra keys at any level, sides in any order or missing, any values --
+   whenever check_input_section returns, the value the user gave for a key of the left / right
+   section is in the returned configuration ("NaN" / "inf" / "-inf" read as numbers) *)
+Theorem C17_user_values_kept : forall fs user cfg side key v,
+  py_keys user ->
+  pandora_check_input_section fs user = Ok cfg -> side = "left" \/ side = "right" ->
+  field user side key = Some v -> field cfg side key = Some (kept v).
+Proof.
+  intros fs user cfg side key v PY H S F.
+  apply check_input_section_spec in H as [U _].
+  exact (user_values_kept user cfg side key v PY U S F).
+Qed.
+
+(* ... and NO ACCEPTED CONFIGURATION GIVES A DICTIONARY for a key of the left / right section: the
+   user's {} or {...} is kept by update_conf and the json-checker validation (against whichever of
+   the four schemas is selected) refuses it, whatever the key, the file system and the rest of
+   the configuration.  No guard. *)
+Theorem C17_dict_value_refused : forall fs user cfg side key v,
+  py_keys user ->
+  pandora_check_input_section fs user = Ok cfg -> side = "left" \/ side = "right" ->
+  field user side key = Some v -> is_dict v = false.
+Proof.
+  intros fs user cfg side key v PY H S F.
+  pose proof (C17_user_values_kept fs user cfg side key v PY H S F) as K.
+  apply check_input_section_spec in H as [_ C].
+  rewrite <- is_dict_kept. exact (completed_no_dict fs cfg side key (kept v) C S K).
+Qed.
 
 Definition two_files (p : string) : option finfo :=
   if String.eqb p "l.tif" || String.eqb p "r.tif" then Some (mkF 5 4 1 false)
@@ -137,19 +164,31 @@ Definition witness_empty_dict : jv :=
   JDict [("input", JDict [("left", JDict [("img", JStr "l.tif"); ("disp", JList [JInt (-2); JInt 2]);
                                           ("nodata", JDict [])]);
                           ("right", JDict [("img", JStr "r.tif")])])].
+Definition witness_nonempty_dict : jv :=
+  JDict [("input", JDict [("left", JDict [("img", JStr "l.tif"); ("disp", JList [JInt (-2); JInt 2])]);
+                          ("right", JDict [("img", JStr "r.tif"); ("mask", JDict [("a", JStr "NaN")])])])].
 
-(* RECORDED FINDING (empty_dict_value_replaced_by_default): an empty dictionary given for a key
-   whose default is not a dictionary is silently replaced by that default by update_conf, so
-   nodata: {} is accepted (as -9999) although it is neither an integer nor NaN *)
-Theorem C17_user_values_kept_refuted : ~ C17_user_values_kept_full.
+(* REGRESSION (finding empty_dict_value_replaced_by_default, repaired by a `fix:` commit):
+   update_conf as found ([upd_before]) replaced nodata: {} by the default -9999 and the section was
+   accepted; a non-empty dictionary there ended in TypeError.  Now both are kept and refused by
+   the schema. *)
+Example C17_regression_empty_dict :
+  (exists cfg, upd_before (JDict default_short_configuration_input) witness_empty_dict = Ok cfg /\
+               field cfg "left" "nodata" = Some (JInt (-9999)) /\
+               is_ok (pandora_check_completed two_files cfg) = true)
+  /\ upd_before (JDict default_short_configuration_input) witness_nonempty_dict = Raise EType
+  /\ (exists cfg, upd (JDict default_short_configuration_input) witness_empty_dict = Ok cfg /\
+                  field cfg "left" "nodata" = Some (JDict []))
+  /\ (exists cfg, upd (JDict default_short_configuration_input) witness_nonempty_dict = Ok cfg /\
+                  field cfg "right" "mask" = Some (JDict [("a", JNan)]))
+  /\ pandora_check_input_section two_files witness_empty_dict = Raise ESchema
+  /\ pandora_check_input_section two_files witness_nonempty_dict = Raise ESchema.
 Proof.
-  intro H.
-  assert (E : exists cfg, pandora_check_input_section two_files witness_empty_dict = Ok cfg /\
-                          field cfg "left" "nodata" = Some (JInt (-9999))).
-  { eexists. split; vm_compute; reflexivity. }
-  destruct E as (cfg & E1 & E2).
-  specialize (H two_files witness_empty_dict cfg "left" "nodata" (JDict []) E1 (or_introl eq_refl) eq_refl).
-  rewrite E2 in H. discriminate.
+  split; [eexists; repeat split; vm_compute; reflexivity|].
+  split; [vm_compute; reflexivity|].
+  split; [eexists; split; vm_compute; reflexivity|].
+  split; [eexists; split; vm_compute; reflexivity|].
+  split; vm_compute; reflexivity.
 Qed.
 
 (* D9 (repaired by a `fix:` commit): a left disparity list whose length is not 2 is refused,
@@ -259,7 +298,8 @@ Print Assumptions C17_schema_history_free.
 Print Assumptions C17_check_completed_iff_documented.
 Print Assumptions C17_check_input_iff_documented.
 Print Assumptions C17_input_completion.
-Print Assumptions C17_user_values_kept_refuted.
+Print Assumptions C17_user_values_kept.
+Print Assumptions C17_dict_value_refused.
 Print Assumptions C17_interval_length_checked.
 Print Assumptions C17_only_input_key_matters.
 Print Assumptions C17_no_input_refused.
